@@ -90,15 +90,30 @@ pub fn tracker_text(p: &Airplanes) -> String {
 }
 
 pub fn history_record(events: &[&Ev], rx: (f64, f64), range: f64) -> String {
+    // time moves between events (the normal condition in production); alloc-only builds have no clock, so the
+    // record must be the same whether one second or a hundred pass between frames
+    let a = history_record_step(events, rx, range, 1_000_000_000);
+    let b = history_record_step(events, rx, range, 100_000_000_000);
+    if a == b {
+        a
+    } else {
+        format!("{a}\n--- differs with 100 s between events ---\n{b}")
+    }
+}
+
+fn history_record_step(events: &[&Ev], rx: (f64, f64), range: f64, step_ns: u64) -> String {
     let evs: Vec<Ev> = events.iter().map(|e| (*e).clone()).collect();
     guarded_text(move || {
         let mut planes = Airplanes::new();
         let mut now = 0u64;
+        let mut rx = rx;
         let mut log = String::from("history");
         for e in &evs {
+            if let Ev::Rx(la, lo) = e {
+                rx = (*la, *lo);
+            }
             if let Ev::Frame { name, bytes } = e {
-                // time moves between events (the normal condition in production); alloc-only builds have no clock
-                now += 1_000_000_000;
+                now += step_ns;
                 vclock::set_now(now);
                 let added = match Frame::from_bytes(bytes) {
                     Ok(f) => planes.action(f, rx, range) == Added::Yes,
